@@ -282,6 +282,7 @@ def main(argv=None):
         cases = mod.gen_cases(tier, seed)
         if args.only:
             cases = [c for c in cases if args.only in json.dumps(c)]
+    cases = [dict(c) for c in cases]  # a generator may list the same dict object twice: every case gets its own id
     for i, c in enumerate(cases):
         c['cid'] = i
 
